@@ -135,8 +135,12 @@ FreeSlots(q) == (1..NSlots(q)) \ BoundSet(q)
 SelSlots(q) == {IF q.sel[k].k = "var" THEN q.sel[k].i
                 ELSE IF q.sel[k].k = "flat" THEN NVars(q) + q.sel[k].j
                 ELSE IF q.sel[k].k = "sub" THEN q.sel[k].i ELSE 0 : k \in 1..Len(q.sel)}
+\* a domain that lists an object twice: whether the duplicate is kept is not fixed by the
+\* properties (only that it is the same on every evaluation), so such queries compare as sets
+HasDupDomain(q) == \E k \in 1..NVars(q) : \E i, j \in 1..Len(q.vars[k].dom) : i # j /\ q.vars[k].dom[i] = q.vars[k].dom[j]
 CompareMode(q) ==
-  IF Cardinality(FreeSlots(q)) = 1 /\ Len(q.sel) = 1 /\ q.sel[1].k \in {"var", "sub"} /\ q.desc = "entity"
+  IF HasDupDomain(q) THEN "set"
+  ELSE IF Cardinality(FreeSlots(q)) = 1 /\ Len(q.sel) = 1 /\ q.sel[1].k \in {"var", "sub"} /\ q.desc = "entity"
   THEN "seq"
   ELSE IF FreeSlots(q) \subseteq SelSlots(q) THEN "bag" ELSE "set"
 
